@@ -1,8 +1,11 @@
 /-
-  Helper lemmas for C04 (core Lean only; re-uses the ceil-division lemmas of C01).
+  Helper lemmas for C04 (core Lean + the Mathlib tactics `ring`/`linarith`/`push_cast`; re-uses the
+  ceil-division lemmas of C01).
 -/
 import Verif.Model.C04
 import Verif.Lemmas.C01
+import Mathlib.Tactic.Ring
+import Mathlib.Tactic.Linarith
 
 namespace Verif.C04
 open Verif.Py
@@ -211,5 +214,344 @@ theorem over_ok (f : List Rat → Rat) (s : Src) (h : s.wf) (ranges : List (Int 
         rw [← this]
     · cases ho
   · cases ho
+
+/-! ### aligned windows of a continuous channel, `downsampled_by` -/
+
+theorem samplesFrom_getLast? {α} (dt : Int) : ∀ (l : List α) (t0 : Int) (v : α),
+    ∃ y, (samplesFrom t0 dt (v :: l)).getLast? = some y ∧ y.1 = t0 + (l.length : Int) * dt := by
+  intro l
+  induction l with
+  | nil => intro t0 v; exact ⟨(t0, v), rfl, by simp⟩
+  | cons w ws ih =>
+    intro t0 v
+    obtain ⟨y, hy, hy1⟩ := ih (t0 + dt) w
+    refine ⟨y, ?_, ?_⟩
+    · simp only [samplesFrom] at hy ⊢
+      rw [List.getLast?_cons_cons]; exact hy
+    · rw [hy1]; simp only [List.length_cons]; push_cast; ring
+
+theorem pairs_arange (st sp step : Int) :
+    pairs (arange st sp step) =
+      (List.range (((sp - st + step - 1) / step).toNat - 1)).map fun (i : Nat) =>
+        (st + (i : Int) * step, st + ((i : Int) + 1) * step) := by
+  unfold pairs arange
+  apply List.ext_getElem
+  · simp
+  · intro i h1 h2
+    simp
+
+theorem window_aligned {α} (dt : Int) (hdt : 0 < dt) (l : List α) (t0 : Int) (p q : Nat) :
+    (samplesFrom t0 dt l).filter (fun s => decide (t0 + (p : Int) * dt ≤ s.1) && decide (s.1 < t0 + (q : Int) * dt)) =
+      samplesFrom (t0 + (p : Int) * dt) dt ((l.take q).drop p) := by
+  rw [filter_samplesFrom dt hdt]
+  have e1 : cdiv (t0 + (p : Int) * dt - t0) dt = p := by
+    have : t0 + (p : Int) * dt - t0 = (p : Int) * dt := by omega
+    rw [this, cdiv_mul _ _ hdt]
+  have e2 : cdiv (t0 + (q : Int) * dt - t0) dt = q := by
+    have : t0 + (q : Int) * dt - t0 = (q : Int) * dt := by omega
+    rw [this, cdiv_mul _ _ hdt]
+  rw [e1, e2]; simp
+
+theorem windowSample_samplesFrom (f : List Rat → Rat) (r : Int × Int) (t0 dt : Int) (l : List Rat) (hl : l ≠ []) :
+    windowSample f true r (samplesFrom t0 dt l) = some (t0 + (((l.length : Int) - 1) * dt) / 2, f l) := by
+  cases l with
+  | nil => exact absurd rfl hl
+  | cons v vs =>
+    obtain ⟨y, hy, hy1⟩ := samplesFrom_getLast? dt vs t0 v
+    unfold windowSample
+    rw [hy]
+    simp only [samplesFrom, List.head?_cons, ite_true]
+    have := samplesFrom_map_snd dt (v :: vs) t0
+    simp only [samplesFrom] at this
+    rw [this, hy1]
+    simp only [List.length_cons]
+    congr 2
+    have : ((vs.length + 1 : Nat) : Int) - 1 = vs.length := by push_cast; ring
+    rw [this]
+    generalize (vs.length : Int) * dt = x
+    omega
+
+theorem downBy_samples (f : List Rat → Rat) (c : Cont) (k : Nat) (hdt : 0 < c.dt) (hk : 0 < k) :
+    ∃ r, downBy f (.cont c) k = .ok r ∧ r.dt = c.dt * k ∧
+      r.samples = (List.range (c.data.length / k)).map fun (i : Nat) =>
+        (c.start + (i : Int) * ((k : Int) * c.dt) + (((k : Int) - 1) * c.dt) / 2,
+          f ((c.data.drop (i * k)).take k)) := by
+  refine ⟨{ start := c.start + (c.dt * ((k : Int) - 1)) / 2, dt := c.dt * k, data := (blocks k c.data).map f }, ?_, rfl, ?_⟩
+  · simp only [downBy]; rw [if_neg (by omega)]
+  · have hdt' : 0 < c.dt * (k : Int) := Int.mul_pos hdt (by omega)
+    rw [cont_samples _ hdt', samplesFrom_eq_map]
+    simp only [blocks, List.length_map, List.length_range, List.map_map]
+    rw [List.zip_map']
+    apply List.map_congr_left
+    intro i _
+    simp only [Function.comp]
+    congr 1
+    rw [Int.mul_comm c.dt ((k : Int) - 1)]
+    ring
+
+theorem filterMap_eq_map_of {α β} (g : α → Option β) (h : α → β) :
+    ∀ (l : List α), (∀ a ∈ l, g a = some (h a)) → l.filterMap g = l.map h := by
+  intro l
+  induction l with
+  | nil => intro _; rfl
+  | cons x xs ih =>
+    intro H
+    rw [List.filterMap_cons, H x (List.mem_cons_self), List.map_cons, ih (fun a ha => H a (List.mem_cons_of_mem _ ha))]
+
+/-- `q` consecutive windows of `step` ns starting at `st`. -/
+def blockWins (st step : Int) (q : Nat) : List (Int × Int) :=
+  (List.range q).map fun (i : Nat) => (st + (i : Int) * step, st + ((i : Int) + 1) * step)
+
+theorem over_blocks (f : List Rat → Rat) (c : Cont) (k q : Nat) (hdt : 0 < c.dt) (hk : 0 < k) (hq : 0 < q)
+    (hqn : q * k ≤ c.data.length) :
+    over f (.cont c) (blockWins c.start ((k : Int) * c.dt) q) (some true) =
+      .ok ((List.range q).map fun (i : Nat) =>
+        (c.start + (i : Int) * ((k : Int) * c.dt) + (((k : Int) - 1) * c.dt) / 2,
+          f ((c.data.drop (i * k)).take k))) := by
+  have hkd : 0 < (k : Int) * c.dt := Int.mul_pos (by omega) hdt
+  have hq0 : q ≠ 0 := by omega
+  have hqn' : (q : Int) * ((k : Int) * c.dt) ≤ (c.data.length : Int) * c.dt := by
+    have : ((q * k : Nat) : Int) ≤ (c.data.length : Int) := by exact_mod_cast hqn
+    have := Int.mul_le_mul_of_nonneg_right this (Int.le_of_lt hdt)
+    push_cast at this
+    linarith [Int.mul_assoc (q : Int) k c.dt]
+  -- every window lies inside the span
+  have hin : ∀ i : Nat, i < q →
+      c.start ≤ c.start + (i : Int) * ((k : Int) * c.dt) ∧
+      c.start + ((i : Int) + 1) * ((k : Int) * c.dt) ≤ c.start + (c.data.length : Int) * c.dt := by
+    intro i hi
+    have h1 : 0 ≤ (i : Int) * ((k : Int) * c.dt) := Int.mul_nonneg (by omega) (Int.le_of_lt hkd)
+    have h2 : ((i : Int) + 1) * ((k : Int) * c.dt) ≤ (q : Int) * ((k : Int) * c.dt) :=
+      Int.mul_le_mul_of_nonneg_right (by omega) (Int.le_of_lt hkd)
+    constructor <;> linarith
+  unfold over blockWins
+  simp only [List.head?_map, List.getLast?_map, List.head?_range, List.getLast?_range, if_neg hq0,
+    Option.map_some, Src.start?, Src.stop?, Cont.stop]
+  have h0 := hin 0 (by omega)
+  have hl := hin (q - 1) (by omega)
+  rw [if_neg]
+  swap
+  · intro h
+    have e : ((q - 1 : Nat) : Int) + 1 = q := by omega
+    rw [e] at h
+    have : 0 < (q : Int) * ((k : Int) * c.dt) := Int.mul_pos (by omega) hkd
+    simp only [Int.natCast_zero, Int.zero_mul, Int.add_zero] at h h0
+    rcases h with h | h
+    · linarith
+    · have : 0 < (c.data.length : Int) * c.dt := by linarith
+      linarith
+  congr 1
+  rw [List.filter_eq_self.mpr]
+  · rw [List.filterMap_map]
+    apply filterMap_eq_map_of
+    intro i hi
+    have hi' : i < q := List.mem_range.mp hi
+    simp only [Function.comp]
+    rw [overStep_eq f (.cont c) hdt]
+    simp only [Src.samples]
+    rw [cont_samples c hdt, inWin_eq]
+    have e1 : c.start + (i : Int) * ((k : Int) * c.dt) = c.start + ((i * k : Nat) : Int) * c.dt := by
+      push_cast; ring
+    have e2 : c.start + ((i : Int) + 1) * ((k : Int) * c.dt) = c.start + (((i + 1) * k : Nat) : Int) * c.dt := by
+      push_cast; ring
+    rw [e1, e2, window_aligned c.dt hdt]
+    have hb : (c.data.take ((i + 1) * k)).drop (i * k) = (c.data.drop (i * k)).take k := by
+      rw [List.drop_take]; congr 1; rw [Nat.add_mul]; omega
+    rw [hb]
+    have hlen : ((c.data.drop (i * k)).take k).length = k := by
+      rw [List.length_take, List.length_drop]
+      have : (i + 1) * k ≤ q * k := Nat.mul_le_mul_right k (by omega)
+      rw [Nat.add_mul] at this
+      omega
+    have hne : (c.data.drop (i * k)).take k ≠ [] := by
+      intro h; rw [h] at hlen; simp at hlen; omega
+    rw [windowSample_samplesFrom f _ _ _ _ hne, hlen]
+  · intro r hr
+    obtain ⟨i, hi, rfl⟩ := List.mem_map.mp hr
+    have := hin i (List.mem_range.mp hi)
+    simp [this.1, this.2]
+
+/-! ### `downsampled_to`: the edges `np.arange(start, stop, step)` -/
+
+theorem ceil_eq (D step : Int) (hs : 0 < step) :
+    (D + step - 1) / step = if D % step = 0 then D / step else D / step + 1 := by
+  have hdm := Int.emod_add_mul_ediv D step
+  have hnn := Int.emod_nonneg D (by omega : step ≠ 0)
+  have hlt := Int.emod_lt_of_pos D hs
+  generalize D / step = q at *
+  generalize D % step = r at *
+  have hD : D = r + q * step := by rw [Int.mul_comm] at hdm; omega
+  split
+  · rename_i h0
+    have e : D + step - 1 = (step - 1) + q * step := by omega
+    rw [e, Int.add_mul_ediv_right _ _ (by omega), Int.ediv_eq_zero_of_lt (by omega) (by omega)]
+    omega
+  · rename_i h0
+    have e : D + step - 1 = (r - 1) + (q + 1) * step := by rw [Int.add_mul]; omega
+    rw [e, Int.add_mul_ediv_right _ _ (by omega), Int.ediv_eq_zero_of_lt (by omega) (by omega)]
+    omega
+
+/-- All windows `[st + i·step, st + (i+1)·step)` that end at or before `sp`. -/
+def fullWindows (st sp step : Int) : List (Int × Int) := blockWins st step ((sp - st) / step).toNat
+
+theorem mem_blockWins (st step : Int) (q : Nat) (r : Int × Int) :
+    r ∈ blockWins st step q ↔ ∃ i : Nat, i < q ∧ r = (st + (i : Int) * step, st + ((i : Int) + 1) * step) := by
+  unfold blockWins
+  simp only [List.mem_map, List.mem_range]
+  constructor
+  · rintro ⟨i, hi, rfl⟩; exact ⟨i, hi, rfl⟩
+  · rintro ⟨i, hi, rfl⟩; exact ⟨i, hi, rfl⟩
+
+theorem mem_fullWindows (st sp step : Int) (hs : 0 < step) (r : Int × Int) :
+    r ∈ fullWindows st sp step ↔
+      ∃ i : Nat, r = (st + (i : Int) * step, st + ((i : Int) + 1) * step) ∧ st + ((i : Int) + 1) * step ≤ sp := by
+  unfold fullWindows
+  rw [mem_blockWins]
+  constructor
+  · rintro ⟨i, hi, rfl⟩
+    refine ⟨i, rfl, ?_⟩
+    have h1 : (i : Int) + 1 ≤ (sp - st) / step := by omega
+    have := (Int.le_ediv_iff_mul_le hs).mp h1
+    linarith
+  · rintro ⟨i, rfl, hi⟩
+    refine ⟨i, ?_, rfl⟩
+    have : (i : Int) + 1 ≤ (sp - st) / step := (Int.le_ediv_iff_mul_le hs).mpr (by linarith)
+    omega
+
+theorem pairs_arange_blockWins (st sp step : Int) :
+    pairs (arange st sp step) = blockWins st step (((sp - st + step - 1) / step).toNat - 1) :=
+  pairs_arange st sp step
+
+theorem blockWins_dropLast (st step : Int) (q : Nat) :
+    (blockWins st step q).dropLast = blockWins st step (q - 1) := by
+  unfold blockWins
+  rw [List.dropLast_eq_take, List.length_map, List.length_range, ← List.map_take, List.take_range]
+  congr 2; omega
+
+theorem pairs_arange_nonmult (st sp step : Int) (hs : 0 < step) (h : (sp - st) % step ≠ 0) :
+    pairs (arange st sp step) = fullWindows st sp step := by
+  rw [pairs_arange_blockWins, fullWindows, ceil_eq _ _ hs, if_neg h]
+  congr 1; omega
+
+theorem pairs_arange_mult (st sp step : Int) (hs : 0 < step) (h : (sp - st) % step = 0) :
+    pairs (arange st sp step) = (fullWindows st sp step).dropLast := by
+  rw [pairs_arange_blockWins, fullWindows, ceil_eq _ _ hs, if_pos h, blockWins_dropLast]
+
+theorem targetStep_cont (dt : Int) (k : Nat) (m : Method) (hdt : 0 < dt) (hk : 0 < k) :
+    targetStep [dt] ((k : Int) * dt) m = .ok ((k : Int) * dt) := by
+  have h1 : ¬ ((k : Int) * dt < dt) := by
+    have : 1 * dt ≤ (k : Int) * dt := Int.mul_le_mul_of_nonneg_right (by omega) (Int.le_of_lt hdt)
+    omega
+  unfold targetStep
+  simp only [List.any_cons, List.any_nil, Bool.or_false, decide_eq_true_eq, if_neg h1]
+  cases m <;> simp [Int.mul_emod_left, Int.ne_of_gt hdt]
+
+theorem to_is_over' (f : List Rat → Rat) (s : Src) (target step st sp : Int) (m : Method) (wh : Option Bool)
+    (ht : targetStep s.timesteps target m = .ok step) (h0 : step ≠ 0)
+    (hst : s.start? = some st) (hsp : s.stop? = some sp) :
+    downTo f s target (some m) wh = over f s (pairs (arange st sp step)) wh := by
+  unfold downTo
+  simp only [ht, hst, hsp, if_neg h0]
+
+theorem cont_span_div (c : Cont) (k : Nat) (hdt : 0 < c.dt) :
+    ((c.stop - c.start) / ((k : Int) * c.dt)).toNat = c.data.length / k ∧
+    ((c.stop - c.start) % ((k : Int) * c.dt) = 0 ↔ c.data.length % k = 0) := by
+  have e : c.stop - c.start = c.dt * (c.data.length : Int) := by unfold Cont.stop; rw [Int.mul_comm]; omega
+  rw [e, Int.mul_comm (k : Int) c.dt, Int.mul_ediv_mul_of_pos _ _ hdt, Int.mul_emod_mul_of_pos _ _ hdt]
+  constructor
+  · have : (c.data.length : Int) / (k : Int) = ((c.data.length / k : Nat) : Int) := by push_cast; rfl
+    rw [this]; exact Int.toNat_natCast _
+  · have : (c.data.length : Int) % (k : Int) = ((c.data.length % k : Nat) : Int) := by push_cast; rfl
+    rw [this]
+    constructor
+    · intro h
+      rcases Int.mul_eq_zero.mp h with h | h
+      · omega
+      · exact_mod_cast h
+    · intro h; rw [h]; simp
+
+theorem to_cont_nonmult (f : List Rat → Rat) (c : Cont) (k : Nat) (m : Method) (hdt : 0 < c.dt) (hk : 0 < k)
+    (hn : k ≤ c.data.length) (hnm : c.data.length % k ≠ 0) :
+    downTo f (.cont c) ((k : Int) * c.dt) (some m) (some true) =
+      .ok ((List.range (c.data.length / k)).map fun (i : Nat) =>
+        (c.start + (i : Int) * ((k : Int) * c.dt) + (((k : Int) - 1) * c.dt) / 2,
+          f ((c.data.drop (i * k)).take k))) := by
+  have hkd : 0 < (k : Int) * c.dt := Int.mul_pos (by omega) hdt
+  obtain ⟨hq, hr⟩ := cont_span_div c k hdt
+  rw [to_is_over' f (.cont c) _ _ c.start c.stop m _ (targetStep_cont c.dt k m hdt hk) (by omega) rfl rfl,
+    pairs_arange_nonmult _ _ _ hkd (fun h => hnm (hr.mp h)), fullWindows, hq]
+  exact over_blocks f c k _ hdt hk (Nat.div_pos hn hk) (Nat.div_mul_le_self _ _)
+
+theorem to_cont_mult (f : List Rat → Rat) (c : Cont) (k : Nat) (m : Method) (hdt : 0 < c.dt) (hk : 0 < k)
+    (hn : 2 * k ≤ c.data.length) (hnm : c.data.length % k = 0) :
+    downTo f (.cont c) ((k : Int) * c.dt) (some m) (some true) =
+      .ok ((List.range (c.data.length / k - 1)).map fun (i : Nat) =>
+        (c.start + (i : Int) * ((k : Int) * c.dt) + (((k : Int) - 1) * c.dt) / 2,
+          f ((c.data.drop (i * k)).take k))) := by
+  have hkd : 0 < (k : Int) * c.dt := Int.mul_pos (by omega) hdt
+  obtain ⟨hq, hr⟩ := cont_span_div c k hdt
+  have h2 : 2 ≤ c.data.length / k := (Nat.le_div_iff_mul_le hk).mpr hn
+  rw [to_is_over' f (.cont c) _ _ c.start c.stop m _ (targetStep_cont c.dt k m hdt hk) (by omega) rfl rfl,
+    pairs_arange_mult _ _ _ hkd (hr.mpr hnm), fullWindows, hq, blockWins_dropLast]
+  refine over_blocks f c k _ hdt hk (by omega) ?_
+  have := Nat.div_mul_le_self c.data.length k
+  have : (c.data.length / k - 1) * k ≤ c.data.length / k * k := Nat.mul_le_mul_right k (by omega)
+  omega
+
+theorem to_cont_short (f : List Rat → Rat) (c : Cont) (k : Nat) (m : Method) (wh : Option Bool) (hdt : 0 < c.dt)
+    (hk : 0 < k) (hn : c.data.length ≤ k) :
+    downTo f (.cont c) ((k : Int) * c.dt) (some m) wh = .error .value := by
+  have hkd : 0 < (k : Int) * c.dt := Int.mul_pos (by omega) hdt
+  obtain ⟨hq, hr⟩ := cont_span_div c k hdt
+  rw [to_is_over' f (.cont c) _ _ c.start c.stop m _ (targetStep_cont c.dt k m hdt hk) (by omega) rfl rfl]
+  have hempty : pairs (arange c.start c.stop ((k : Int) * c.dt)) = [] := by
+    by_cases h : c.data.length % k = 0
+    · rw [pairs_arange_mult _ _ _ hkd (hr.mpr h), fullWindows, hq, blockWins_dropLast]
+      have : c.data.length / k - 1 = 0 := by
+        rcases Nat.lt_or_eq_of_le hn with h1 | h1
+        · rw [Nat.div_eq_of_lt h1]
+        · rw [h1, Nat.div_self hk]
+      rw [this]; rfl
+    · rw [pairs_arange_nonmult _ _ _ hkd (fun h' => h (hr.mp h')), fullWindows, hq]
+      have : c.data.length / k = 0 := by
+        rcases Nat.lt_or_eq_of_le hn with h1 | h1
+        · exact Nat.div_eq_of_lt h1
+        · rw [h1, Nat.mod_self] at h; exact absurd rfl h
+      rw [this]; rfl
+  rw [hempty]; rfl
+
+/-- Block `i` of `downsampled_by(k)` is the specification's sample for the window
+    `[start + i·k·dt, start + (i+1)·k·dt)`. -/
+theorem by_window (f : List Rat → Rat) (c : Cont) (k i : Nat) (hdt : 0 < c.dt) (hk : 0 < k)
+    (hi : i < c.data.length / k) :
+    windowSample f true (c.start + (i : Int) * ((k : Int) * c.dt), c.start + (i : Int) * ((k : Int) * c.dt) + (k : Int) * c.dt)
+        (c.samples.filter (inWin (c.start + (i : Int) * ((k : Int) * c.dt))
+          (c.start + (i : Int) * ((k : Int) * c.dt) + (k : Int) * c.dt))) =
+      some (c.start + (i : Int) * ((k : Int) * c.dt) + (((k : Int) - 1) * c.dt) / 2,
+        f ((c.data.drop (i * k)).take k)) := by
+  rw [cont_samples c hdt, inWin_eq]
+  have e1 : c.start + (i : Int) * ((k : Int) * c.dt) = c.start + ((i * k : Nat) : Int) * c.dt := by
+    push_cast; ring
+  have e2 : c.start + (i : Int) * ((k : Int) * c.dt) + (k : Int) * c.dt
+      = c.start + (((i + 1) * k : Nat) : Int) * c.dt := by
+    push_cast; ring
+  rw [e2, e1, window_aligned c.dt hdt]
+  have hb : (c.data.take ((i + 1) * k)).drop (i * k) = (c.data.drop (i * k)).take k := by
+    rw [List.drop_take]; congr 1; rw [Nat.add_mul]; omega
+  rw [hb]
+  have hlen : ((c.data.drop (i * k)).take k).length = k := by
+    rw [List.length_take, List.length_drop]
+    have h1 : (i + 1) * k ≤ c.data.length / k * k := Nat.mul_le_mul_right k (by omega)
+    have h2 := Nat.div_mul_le_self c.data.length k
+    rw [Nat.add_mul] at h1
+    omega
+  have hne : (c.data.drop (i * k)).take k ≠ [] := by
+    intro h; rw [h] at hlen; simp at hlen; omega
+  rw [windowSample_samplesFrom f _ _ _ _ hne, hlen]
+
+theorem map_range_dropLast {β} (g : Nat → β) (q : Nat) :
+    ((List.range q).map g).dropLast = (List.range (q - 1)).map g := by
+  rw [List.dropLast_eq_take, List.length_map, List.length_range, ← List.map_take, List.take_range]
+  congr 2; omega
 
 end Verif.C04
